@@ -549,8 +549,10 @@ class Builder:
             if cands and self.d(st.booleans()):
                 meth["output"] = self.d(st.sampled_from(cands))
             else:
-                resp = self.skeleton(pkg, names, self.p["max_depth"], fileidx, base=f"{name}Response")
-                self.fill(resp, f"{pkg}.{resp['name']}", fileidx)
+                # now and then the API's own message called Empty (only google.protobuf.Empty means "no response")
+                own_empty = self.p.get("p_own_empty") and self.coin("p_own_empty")
+                resp = self.skeleton(pkg, names, self.p["max_depth"], fileidx, base="Empty" if own_empty else f"{name}Response")
+                self.fill(resp, f"{pkg}.{resp['name']}", fileidx, nfields=self.d(st.integers(1, 3)) if own_empty else None)
                 file["messages"].append(resp)
                 meth["output"] = f".{pkg}.{resp['name']}"
         # streaming
@@ -691,6 +693,11 @@ class Builder:
         for sf in singles:
             if self.d(st.booleans()):
                 fields.append(dict(sf, number=num)); num += 1
+        if v and len(fields) >= 2 and self.d(st.integers(0, 2)) == 0:
+            # field numbers out of declaration order ("first repeated field" is read as first declared)
+            nums = self.d(st.permutations([f["number"] for f in fields]))
+            for f, n in zip(fields, nums):
+                f["number"] = n
         return fields
 
     # -- Compute-style extended operations (google.cloud.extended_operations) ----
@@ -802,6 +809,12 @@ class Builder:
             if want_svc:
                 for _ in range(self.d(st.integers(1, self.p["max_services"]))):
                     sname = names.fresh(self.d(st.sampled_from(SERVICE_WORDS)))
+                    if self.p["services_in_subpackages"]:
+                        # service names unique API-wide (same-named services of two sub-packages: finding F-subpackage-services)
+                        self._svc_names = getattr(self, "_svc_names", None) or Names()
+                        while sname.lower() in self._svc_names.used:
+                            sname = names.fresh(sname)
+                        self._svc_names.used.add(sname.lower())
                     svc = {"name": sname, "host": host, "methods": []}
                     if self.d(st.booleans()):
                         svc["scopes"] = ["https://www.googleapis.com/auth/cloud-platform"] + (["https://www.googleapis.com/auth/other"] if self.d(st.booleans()) else [])
